@@ -117,6 +117,11 @@ func runC17(t *testing.T, seed uint64, planJSON []byte, tier string) (res *Resul
 		}
 		plan = &C17Plan{Mode: mode, Cfg: ap.Cfg, Opts: ap.Opts, Tables: ap.Tables, Episodes: ap.Episodes[:1]}
 		plan.Episodes[0].StopOnErr = true
+		// (an application that commits after a statement error is outside the
+		// episodes of this engine: with injected faults the failed statement may
+		// already have been applied when its image query fails)
+		plan.Opts.ContinueAfterError = false
+		plan.Episodes[0].RetryOnce = plan.Opts.DedicatedConn
 		// XA branches of one global transaction do not share row locks: keep the
 		// branches of a program on different tables (one branch per table)
 		{
